@@ -59,7 +59,7 @@ def manager_cases(draw, tier="quick", tasks=("detection", "tracking", "fp_valida
     frame = draw(st.sampled_from(["base_link", "map"])) if allow_map else "base_link"
     mo = max_obj or draw(st.sampled_from([6, 10, 16] if big else [4, 6, 10]))
     mgr = draw(range_cfg(n, narrow=False))
-    mgr["radii"] = draw(st.one_of(st.none(), GEN.per_label(n, st.sampled_from([1.5, 3.0, 8.0]))))
+    mgr["radii"] = draw(st.one_of(st.none(), GEN.per_label(n, st.sampled_from([1.5, 3.0, 8.0, 1.5, 3.0, 8.0, 0.0]))))
     # (0 is a legitimate, if extreme, threshold: no distance beats it / any overlap beats it)
     thr = {
         "center": [draw(GEN.per_label(n, st.sampled_from([0.5, 1.0, 2.0, 0.5, 1.0, 2.0, 0.0]))) for _ in range(draw(st.integers(1, 2)))],
@@ -123,6 +123,11 @@ def manager_cases(draw, tier="quick", tasks=("detection", "tracking", "fp_valida
             e["score"] = min(0.99999, e["score"] + fi * 1.3e-6)  # keeps confidences distinct across frames, too
         if crit.get("uuids"):
             crit["uuids"] = [f"g{fi}_{u[1:]}" for u in crit["uuids"]]
+        if fi == 0 and mgr.get("conf") is None and crit.get("conf") is None and sc["est"] and draw(st.booleans()):
+            # no confidence filter anywhere: an estimate with confidence exactly 0.0 (detector without scores) is an ordinary
+            # result and takes the last rank
+            cand = [e for e in sc["est"] if e["label"] in targets] or sc["est"]
+            cand[draw(st.integers(0, len(cand) - 1))]["score"] = 0.0
         ego = draw(GEN.ego_poses())
         if crowded:
             ego = [draw(st.sampled_from([1, -1])) * draw(GEN.fl(5e4, 1e5)), draw(st.sampled_from([1, -1])) * draw(GEN.fl(5e4, 1e5)), ego[2]]
@@ -136,6 +141,27 @@ def manager_cases(draw, tier="quick", tasks=("detection", "tracking", "fp_valida
         "thr": thr,
         "frames": frames,
     }
+
+
+def with_uuid_variants(cases):
+    """Detection does not need instance ids: the same cases also with uuid-less objects (detections usually have none,
+    hand-built ground truths may have none) or with ids shared between annotations; uuid filters are switched off then.
+    Only for checks that identify objects by identity, not by uuid."""
+
+    def strip_ids(t):
+        d, how = t
+        if d["task"] == "detection" and how != "keep":
+            d["mgr"]["uuids"] = None
+            for f in d["frames"]:
+                f["crit"]["uuids"] = None
+                for i, o in enumerate(f["gt"]):
+                    o["uuid"] = None if how == "none" else f"shared{i % 2}"
+                for o in f["est"]:
+                    o["uuid"] = None
+            d["uuid_mode"] = how
+        return d
+
+    return st.tuples(cases, st.sampled_from(["keep", "keep", "none", "shared"])).map(strip_ids)
 
 
 # ------------------------------------------------------------------------------------------------
